@@ -366,7 +366,8 @@ def finish(mod, prop_id, tier, seed, results, problems, t0, evidence_path):
         name = fp(v["key"], v["witness"]) + ".json"
         path = replay_dir / name
         path.write_text(json.dumps({"property": prop_id, "key": v["key"], "summary": v["summary"], "seed": seed, "tier": tier, "witness": v["witness"]}, indent=1))
-        print(f"violation: {v['key']}: {v['summary'][:600]}")
+        if len(seen_keys) <= 40:
+            print(f"violation: {v['key']}: {v['summary'][:600]}")
         print(f"VIOLATION property={prop_id} replay={path}")
         rc = 1
 
